@@ -1,4 +1,5 @@
 import TerwayModel.Proofs.Pool
+import TerwayModel.Model.Capacity
 /-
 C06 — the node pool stays within cloud quotas and never disposes what is in use.
 -/
@@ -186,5 +187,23 @@ def sDemo : Slot :=
 /-- with 3 addresses allowed, 2 on the interface (one of them awaiting unassignment) and 3 requests queued,
     batch 2: one address is asked for, not two -/
 example : sDemo.faPlan { cap := 3, batch := 2, en4 := true, en6 := false } [] = .assign 1 0 := by decide
+
+/-! ### the per-interface limit the pool is started with is the instance type's, for both families -/
+
+/-- the pool has ONE per-interface limit (`MaxIPPerENI`, which `getPoolConfig` sets to the type's IPv4 quota); IPv6 is
+    left switched on in multi-IP mode only when the type's IPv6 quota per interface equals that IPv4 quota, so the
+    single limit of `c06_tracked_plus_asked_within_limit` is the type's quota in each family that is enabled -/
+theorem c06_pool_limit_is_type_quota (l : Capacity.Limits) (cfg : Capacity.Cfg) (os : Bool)
+    (h6 : (Capacity.checkInstance l .multiIP cfg os).ipv6 = true) :
+    (Capacity.poolConfig cfg .multiIP l).maxIPPerENI = l.ipv6Per ∧ 0 < l.ipv6Per := by
+  unfold Capacity.checkInstance at h6
+  simp only [decide_eq_true_eq, Capacity.Limits.supportIPv6, Capacity.Limits.supportMultiIPIPv6] at h6
+  obtain ⟨_, hpos, hmulti⟩ := h6
+  have heq : l.ipv6Per = l.ipv4Per := by
+    by_cases h : l.ipv6Per = l.ipv4Per
+    · exact h
+    · exfalso; apply hmulti; simp [h]
+  refine ⟨?_, by simpa using hpos⟩
+  simp [Capacity.poolConfig, heq]
 
 end Terway.Props.C06
